@@ -91,6 +91,60 @@ CLAIMED = {
             "Trusted: TLC; the meaning of primitive Bitcast names. Per-backend perform_cast emitters are covered only for "
             "what C05/C10/C14 execute or extract.",
             "5 C04"),
+    "C18": ("model_checking",
+            "TLA+ specs CMHost.tla (Component Model async host rules) + Trace_Async.tla (property monitors); the real Rust async "
+            "runtime runs natively against a mock host under scripted user programs; host choices enumerated depth-first and at "
+            "random; every recorded run is trace-validated by TLC",
+            "waitable registration: every rt.register/unregister/deliver/cabiwake hook event and every join/cancel/drop built-in is checked against the monitors RegisteredImpliesJoined, LeaveBeforeCancelOrDrop, DeliverExactlyOnce, NoDanglingRegistration, no re-registration across tasks. ~4000 runs / 700k events per quick run; all monitors are evaluated after every event.",
+            "Trusted: TLC; the transcription of the Component Model async rules (CMHost.tla); the mock host (checked against "
+            "CMHost.tla on every trace, disagreement = tool error); tracer hook placement. Exhaustive only within the per-scenario "
+            "DFS bound; interleavings are limited to the scenario families of vlib/async_scen.py.",
+            "5 C18"),
+    "C19": ("model_checking",
+            "TLA+ specs CMHost.tla (Component Model async host rules) + Trace_Async.tla (property monitors); the real Rust async "
+            "runtime runs natively against a mock host under scripted user programs; host choices enumerated depth-first and at "
+            "random; every recorded run is trace-validated by TLC",
+            "stream value accounting: per operation the host's transfers must be the in-order prefix of the written items, reported counts must equal transferred counts, untransferred values are returned, the lowering ledger (lower/dealloc_lists/lift/drop) balances; reads symmetric; both ends in one component included. ~4000 runs / 700k events per quick run; all monitors are evaluated after every event.",
+            "Trusted: TLC; the transcription of the Component Model async rules (CMHost.tla); the mock host (checked against "
+            "CMHost.tla on every trace, disagreement = tool error); tracer hook placement. Exhaustive only within the per-scenario "
+            "DFS bound; interleavings are limited to the scenario families of vlib/async_scen.py.",
+            "5 C19"),
+    "C20": ("model_checking",
+            "TLA+ specs CMHost.tla (Component Model async host rules) + Trace_Async.tla (property monitors); the real Rust async "
+            "runtime runs natively against a mock host under scripted user programs; host choices enumerated depth-first and at "
+            "random; every recorded run is trace-validated by TLC",
+            "future accounting: reported outcomes (written / reader-dropped / cancelled / already-sent / value) must match what the host did; the host's rule that a writable future end is only dropped when done makes a stranded writer a trap; default value write on drop is exercised. ~4000 runs / 700k events per quick run; all monitors are evaluated after every event.",
+            "Trusted: TLC; the transcription of the Component Model async rules (CMHost.tla); the mock host (checked against "
+            "CMHost.tla on every trace, disagreement = tool error); tracer hook placement. Exhaustive only within the per-scenario "
+            "DFS bound; interleavings are limited to the scenario families of vlib/async_scen.py.",
+            "5 C20"),
+    "C21": ("model_checking",
+            "TLA+ specs CMHost.tla (Component Model async host rules) + Trace_Async.tla (property monitors); the real Rust async "
+            "runtime runs natively against a mock host under scripted user programs; host choices enumerated depth-first and at "
+            "random; every recorded run is trace-validated by TLC",
+            "async import: params_dealloc_lists once and only after STARTED/RETURNED, lists_and_own iff STARTED_CANCELLED, results_lift once iff RETURNED, subtask.drop once after resolution, cancel only in progress (host rule). ~4000 runs / 700k events per quick run; all monitors are evaluated after every event.",
+            "Trusted: TLC; the transcription of the Component Model async rules (CMHost.tla); the mock host (checked against "
+            "CMHost.tla on every trace, disagreement = tool error); tracer hook placement. Exhaustive only within the per-scenario "
+            "DFS bound; interleavings are limited to the scenario families of vlib/async_scen.py.",
+            "5 C21"),
+    "C22": ("model_checking",
+            "TLA+ specs CMHost.tla (Component Model async host rules) + Trace_Async.tla (property monitors); the real Rust async "
+            "runtime runs natively against a mock host under scripted user programs; host choices enumerated depth-first and at "
+            "random; every recorded run is trace-validated by TLC",
+            "executor: answers Exit/Wait/Yield consistent with registrations, sleep state and finished work; context slot empty while running and holding the state between callbacks; task state and body destructors released exactly once; start_task and block_on drivers; host cancellation. ~4000 runs / 700k events per quick run; all monitors are evaluated after every event.",
+            "Trusted: TLC; the transcription of the Component Model async rules (CMHost.tla); the mock host (checked against "
+            "CMHost.tla on every trace, disagreement = tool error); tracer hook placement. Exhaustive only within the per-scenario "
+            "DFS bound; interleavings are limited to the scenario families of vlib/async_scen.py.",
+            "5 C22"),
+    "C23": ("model_checking",
+            "TLA+ specs CMHost.tla (Component Model async host rules) + Trace_Async.tla (property monitors); the real Rust async "
+            "runtime runs natively against a mock host under scripted user programs; host choices enumerated depth-first and at "
+            "random; every recorded run is trace-validated by TLC",
+            "cross-task wakeups (feature inter-task-wakeup): a wake of a sleeping task is followed by exactly one unit-stream write that completes at once, wakes of polling/woken tasks write nothing, at most one item per sleep, the wakeup read is cancelled after leaving the set before the next poll and before destruction. ~4000 runs / 700k events per quick run; all monitors are evaluated after every event.",
+            "Trusted: TLC; the transcription of the Component Model async rules (CMHost.tla); the mock host (checked against "
+            "CMHost.tla on every trace, disagreement = tool error); tracer hook placement. Exhaustive only within the per-scenario "
+            "DFS bound; interleavings are limited to the scenario families of vlib/async_scen.py.",
+            "5 C23"),
 }
 
 PENDING_REASON = "check not built yet in this session (planned, see DESIGN.md section 5); not claimed until it runs"
